@@ -566,6 +566,11 @@ class TaskStateMachine(object):
         if ac_ex_event.status in requirements:
             # Make a copy of the items and remove current item under evaluation.
             staged_task = workflow_state.get_staged_task(task_id, task_route)
+
+            # If the task is completed and no longer staged, this is a late report of an item.
+            if not staged_task or "items" not in staged_task:
+                return action_event
+
             items = json_util.deepcopy(staged_task["items"])
             del items[ac_ex_event.item_id]
             items_status = [item.get("status", statuses.UNSET) for item in items]
